@@ -8,7 +8,7 @@
     delimit the three known findings F-C09b/c/d. *)
 From InvokeVerif Require Import Model.SigCtxModel Spec.C09Spec
      Proofs.C09_facts Proofs.C09_sig Proofs.C09_ctx Proofs.C09_wf Proofs.C09_main
-     Proofs.C09_order Proofs.C09_bounded.
+     Proofs.C09_order Proofs.C09_bounded Proofs.C09_flagship.
 From Coq Require Import Permutation.
 
 (** Exactly one argument per parameter, for every signature. *)
@@ -131,6 +131,16 @@ Theorem C09_kwargs_values :
       end.
 Proof. exact kwargs_values. Qed.
 
+(** Flagship: on the guarded region the model satisfies the complete executable
+    specification.  [full_guard] = [wf_sig] (distinct identifiers, distinct
+    dashed forms) minus the three known findings ([all_have_core]: F-C09b,
+    [no_steal]: F-C09c, [no_inverse_clash]: F-C09d), and explicit positional=
+    lists being duplicate-free lists of parameter names.  Missing for full
+    strength: exactly those regions (refuted above, resp. swept below). *)
+Theorem C09_spec_partial :
+  forall s, full_guard s = true -> spec_ok s (sig_cli s) = true.
+Proof. exact spec_partial. Qed.
+
 (** Small-scope sweep of the complete executable specification (a test):
     all 6486 guarded signatures among [small_sigs] (<= 2 parameters). *)
 Theorem C09_spec_bounded_2 :
@@ -144,7 +154,7 @@ Example C09_example :
   let s := mkSig [mkParam "foo_bar" DEmpty; mkParam "foo" (DBool true); mkParam "f" (DInt 3);
                   mkParam "bar_" (DList ["x"]); mkParam "names" DNone]
                  (mkDeco (Some ["f"; "foo_bar"]) ["f"] ["names"] [] true) in
-  guard s = true /\ spec_ok s (sig_cli s) = true /\
+  full_guard s = true /\ spec_ok s (sig_cli s) = true /\
   exists o, sig_cli s = Ok o /\
     all_spellings o = ["-f"; "--foo-bar"; "--foo"; "--bar"; "--names"; "-o"; "-b"; "-n"] /\
     o_inverse o = [("--no-foo", "--foo")] /\ o_positional o = ["f"; "foo-bar"].
